@@ -14,7 +14,7 @@ import json
 import os
 from . import lib
 
-CFG = """CONSTANTS H = {h} W = {w} FixMarks = TRUE FixWide = TRUE
+CFG = """CONSTANTS H = {h} W = {w} FixMarks = TRUE FixWide = TRUE FixDamage = TRUE
 Alphabet = {{}} AllowAmbiguous = TRUE
 {extra}
 INIT JInit
@@ -161,7 +161,7 @@ def run(ctx):
     }
     return lib.finish(ctx, "model_checking", cov,
                       ["Screen.tla is the reference terminal (ECH clips at the margin and keeps the cursor, pending-wrap column, wide-character halves orphan to blanks of unspecified face)",
-                       "ambiguous surfaces (overlapping footprints, wide characters straddling a footprint) are judged by the from-scratch comparison only",
+                       "ambiguous surfaces (overlapping footprints, a visible wide character whose right half lies under an image) are judged by the from-scratch comparison only; a wide character that is itself under an image is hidden like every cell there and in the domain",
                        "images are identified by content, faces and characters by a fixed table shared by harness and spec"])
 
 
